@@ -303,6 +303,8 @@ fn probe_is_sound(pr: &gm::Probe) -> bool {
 }
 
 pub fn run(cx: &mut Cx) {
+    cx.ev.require("summary/ctx/renamed_after_parse");
+    cx.ev.require("probe/related-bounds");
     cx.default_budget();
     for k in [
         "dashes/0", "dashes/1", "dashes/2", "dashes/3", "dashes/4", "nb/0", "nb/1", "nb/2+",
